@@ -137,13 +137,17 @@ Theorem fresh_ctr_total s defs nm idv k : fresh_ctr (fresh_fuel defs) s defs nm 
 Proof.
   intro E. pose proof (fresh_ctr_none s defs nm idv _ k E) as Hall.
   set (js := seq k (fresh_fuel defs)) in *.
-  set (f := fun j => name_taken s defs (nm ++ str_uniq ++ dec j)).
+  set (f := fun j => match nm with Some n => name_taken s defs (n ++ str_uniq ++ dec j) | None => false end).
   assert (Hnd : NoDup js) by apply seq_NoDup.
   assert (HA : length (filter f js) <= length defs).
-  { apply (blocked_bound (fun j => nm ++ str_uniq ++ dec j) (fun c => get_str s c str_NAME) defs).
-    - apply NoDup_filter. exact Hnd.
-    - intros a b. apply cand_name_inj.
-    - intros j Hj. apply filter_In in Hj as [_ Hj]. unfold f in Hj. apply name_taken_spec in Hj. exact Hj. }
+  { destruct nm as [n|].
+    - apply (blocked_bound (fun j => n ++ str_uniq ++ dec j) (fun c => get_str s c str_NAME) defs).
+      + apply NoDup_filter. exact Hnd.
+      + intros a b. apply cand_name_inj.
+      + intros j Hj. apply filter_In in Hj as [_ Hj]. unfold f in Hj. apply name_taken_spec in Hj. exact Hj.
+    - assert (Hnil : filter f js = []).
+      { unfold f. clear. induction js as [|j l IH]; [reflexivity|exact IH]. }
+      rewrite Hnil. cbn. lia. }
   assert (HB : length (filter (fun x => negb (f x)) js) <= length defs).
   { destruct idv as [i|].
     - apply (blocked_bound (fun j => lower (i ++ str_uniq ++ dec j)) (fun c => option_map lower (get_str s c str_IDENT)) defs).
@@ -173,7 +177,7 @@ Lemma suffix_taken_ext s s' defs nm idv sfx :
   suffix_taken s' defs nm idv sfx = suffix_taken s defs nm idv sfx.
 Proof.
   intro H. unfold suffix_taken, name_taken, ident_taken. f_equal.
-  - apply existsb_ext_in. intros c Hc. rewrite (proj1 (H c Hc)). reflexivity.
+  - destruct nm as [n|]; [|reflexivity]. apply existsb_ext_in. intros c Hc. rewrite (proj1 (H c Hc)). reflexivity.
   - destruct idv as [i|]; [|reflexivity]. apply existsb_ext_in. intros c Hc. rewrite (proj2 (H c Hc)). reflexivity.
 Qed.
 
@@ -190,15 +194,59 @@ Qed.
 Lemma fresh_ctr_fresh s defs nm idv fuel k k' :
   fresh_ctr fuel s defs nm idv k = Some k' ->
   k <= k' /\
-  (forall c, In c defs -> get_str s c str_NAME <> Some (nm ++ str_uniq ++ dec k')) /\
+  (forall n c, nm = Some n -> In c defs -> get_str s c str_NAME <> Some (n ++ str_uniq ++ dec k')) /\
   (forall i c w, idv = Some i -> In c defs -> get_str s c str_IDENT = Some w -> lower w <> lower (i ++ str_uniq ++ dec k')) /\
   (forall j, k <= j -> j < k' -> suffix_taken s defs nm idv (str_uniq ++ dec j) = true).
 Proof.
   intro E. destruct (fresh_ctr_spec s defs nm idv fuel k k' E) as [A [B C]]. split; [exact A|].
   unfold suffix_taken in B. apply orb_false_iff in B as [B1 B2]. split; [|split; [|exact C]].
-  - intros c Hc Hn. assert (H : name_taken s defs (nm ++ str_uniq ++ dec k') = true) by (apply name_taken_spec; exists c; auto).
+  - intros n c -> Hc Hn. assert (H : name_taken s defs (n ++ str_uniq ++ dec k') = true) by (apply name_taken_spec; exists c; auto).
     rewrite H in B1. discriminate.
   - intros i c w -> Hc Hw Hl.
     assert (H : ident_taken s defs (i ++ str_uniq ++ dec k') = true) by (apply ident_taken_spec; exists c, w; auto).
     rewrite H in B2. discriminate.
+Qed.
+
+(* ---- the renaming block (Xform.rename_block) ---- *)
+(* it only assigns the name and the identifier of the copy: a property of states that such assignments
+   preserve holds after the block when it held before *)
+Lemma rename_block_post (P : state -> Prop) x1 lib d d' x5 :
+  P (st x1) ->
+  (forall s k v, k = str_NAME \/ k = str_IDENT -> P s -> snd (dict_set s d' k v) = None -> P (fst (dict_set s d' k v))) ->
+  rename_block x1 lib d d' = (x5, None) -> P (st x5).
+Proof.
+  intros H0 Hs. unfold rename_block. cbv zeta.
+  destruct (is_some _ || is_some _); [|intro E; injection E as <-; exact H0].
+  destruct (fresh_ctr _ _ _ _ _ _) as [k|]; [|discriminate].
+  assert (Hid : forall x3 sfx, P (st x3) ->
+            match get_str (st x3) d' str_IDENT with
+            | Some idv => liftR x3 (dict_set (st x3) d' str_IDENT (VStr (idv ++ sfx))) (fun x4 => (x4, None))
+            | None => (x3, None)
+            end = (x5, None) -> P (st x5)).
+  { intros x3 sfx H3. destruct (get_str (st x3) d' str_IDENT) as [idv|]; [|intro E; injection E as <-; exact H3].
+    pose proof (Hs (st x3) str_IDENT (VStr (idv ++ sfx)) (or_intror eq_refl) H3) as HH.
+    unfold liftR. destruct (dict_set (st x3) d' str_IDENT (VStr (idv ++ sfx))) as [s3 [e|]]; [discriminate|].
+    intro E. injection E as <-. cbn [st]. apply HH. reflexivity. }
+  destruct (get_str (st x1) d str_NAME) as [nm|].
+  - cbn [st]. pose proof (Hs (st x1) str_NAME (VStr (nm ++ str_uniq ++ dec k)) (or_introl eq_refl) H0) as HH.
+    unfold liftR at 1. destruct (dict_set (st x1) d' str_NAME (VStr (nm ++ str_uniq ++ dec k))) as [s2 [e|]]; [discriminate|].
+    cbn [uniq_ctr flat_ctr]. apply (Hid (mkX s2 (S k) (flat_ctr x1))). cbn [st]. apply HH. reflexivity.
+  - apply (Hid (mkX (st x1) (S k) (flat_ctr x1))). exact H0.
+Qed.
+
+(* the search never runs out of fuel: the renaming block does not end with XOutOfFuel *)
+Lemma rename_block_fuel x1 lib d d' : snd (rename_block x1 lib d d') <> Some XOutOfFuel.
+Proof.
+  unfold rename_block. cbv zeta.
+  destruct (is_some _ || is_some _); [|cbn [snd]; intro HH; discriminate HH].
+  destruct (fresh_ctr _ _ _ _ _ _) as [k|] eqn:Ef; [|exfalso; apply (fresh_ctr_total _ _ _ _ _ Ef)]. clear Ef.
+  assert (Hid : forall x3 sfx,
+            snd match get_str (st x3) d' str_IDENT with
+            | Some idv => liftR x3 (dict_set (st x3) d' str_IDENT (VStr (idv ++ sfx))) (fun x4 => (x4, None))
+            | None => (x3, None)
+            end <> Some XOutOfFuel).
+  { intros x3 sfx. destruct (get_str (st x3) d' str_IDENT) as [idv|]; [|cbn [snd]; intro HH; discriminate HH].
+    unfold liftR. destruct (dict_set _ _ _ _) as [s3 [e|]]; cbn [snd]; intro HH; discriminate HH. }
+  destruct (get_str (st x1) d str_NAME) as [nm|]; [|apply Hid].
+  unfold liftR at 1. destruct (dict_set _ _ _ _) as [s2 [e|]]; [cbn [snd]; intro HH; discriminate HH|]. apply Hid.
 Qed.
